@@ -346,8 +346,12 @@ def run_connect(case):
             violations.append(viol(f"C05:entry:connect:{fam}:{tr}:probes",
                                    f"silent peer: {len(groups)} distinct probe commands, expected 1"))
         for key, g in groups:
-            check_group(violations, g, tau, r, f"connect:{fam}:{tr}", rec["t1"] if g is groups[-1][1] else None,
+            sub = []
+            check_group(sub, g, tau, r, tr, rec["t1"] if g is groups[-1][1] else None,
                         rec["outcome"], {"tx": r + 1, "outcome": "failed"}, "entry", f"connect({fam}, timeout={tau}, retries={r})")
+            for v in sub:
+                v["key"] = v["key"].replace(f":{tr}:after=entry", f":connect:{fam}:{tr}")
+            violations.extend(sub)
     sig = ("connect", fam, tr, tau, r, len(txs))
     return C.package(world, case, violations, sig, True, {"entry_connect": 1})
 
